@@ -285,7 +285,7 @@ def inner(ind):
 
 
 def lists_ok(ind, t):
-    """twin of Engine.Model.lists_ok: every List written with an indent consists of Dicts"""
+    """every List written with an indent consists of Dicts (false = the former F-C18-2 class; measured only)"""
     k = t[0]
     if k == "D":
         for _, v in t[1]:
@@ -362,30 +362,9 @@ def unjtree(j):
 
 
 # ------------------------------------------------------------------ known findings
-def _is_mixed(fl):
-    inp = fl.get("input", {})
-    if "tree" not in inp or inp.get("layout") != 0:
-        return False
-    t = unjtree(inp["tree"])
-    return wf_tree(t) and not lists_ok(0, t)
-
-
-core.KNOWN_CLASSIFIERS["F-C18-2"] = lambda fl: (
-    fl["kind"] in ("write-raises", "reparse-raises", "roundtrip-differs") and _is_mixed(fl)
-)
-
-
-def _w_c18_2():
-    m = ED()
-    d = m.EngineData()
-    d["a"] = m.List([m.Dict(), m.Integer(5)])
-    try:
-        return canon_obj(m.EngineData.frombytes(d.tobytes())) != canon_obj(d)
-    except Exception:
-        return True
-
-
-core.KNOWN_WITNESS["F-C18-2"] = _w_c18_2
+# F-C18-1 (string ending in byte 0x5C) and F-C18-2 (indented List mixing Dict and non-Dict items) are both fixed
+# (aadd31f, 073f171): no classifier is registered, their input classes stay in the generators, and a
+# regression is reported as a VIOLATION like any other failure.
 
 
 # ------------------------------------------------------------------ generators
@@ -480,7 +459,7 @@ def rand_dict(rng, d, maxd, mix):
 def rand_list(rng, d, maxd, mix):
     n = rng.choice([0, 1, 2, 2, 3, 4])
     r = rng.random()
-    if r < mix:                                    # any mixture (hits F-C18-2 when the first item is a Dict)
+    if r < mix:                                    # any mixture (the former F-C18-2 class when the first item is a Dict)
         return ("L", [rand_value(rng, d + 1, maxd, mix) for _ in range(n)])
     if r < mix + (0.45 if d < maxd else 0):        # all Dicts
         return ("L", [rand_dict(rng, d + 1, maxd, mix) for _ in range(n)])
@@ -556,7 +535,7 @@ def gen_trees(ck):
               [("a", ("L", [("S", "x"), E, E]))], [("a", ("L", [EL, E]))], [("a", ("L", [("F", 0.5), ("D", [("b", ("L", [E]))])]))],
               [("a", ("D", [("b", ("L", [("B", False), ("D", [("c", ("L", [E, E]))]), ("I", 1)]))]))],
               [("a", ("L", [("D", [("b", ("L", [("I", 1), E]))])]))],
-              # F-C18-2 members (first item a Dict, a later one not)
+              # former F-C18-2 members (first item a Dict, a later one not)
               [("a", ("L", [E, ("I", 5)]))], [("a", ("L", [E, ("F", 5.5)]))], [("a", ("L", [E, ("B", True)]))],
               [("a", ("L", [E, ("S", "x")]))], [("a", ("L", [E, EL]))], [("a", ("L", [E, ("L", [("I", 1)])]))],
               [("a", ("D", [("b", ("L", [E, ("I", 5)]))]))], [("a", ("L", [("D", [("b", ("L", [E, ("I", 1)]))])]))],
@@ -816,7 +795,7 @@ def run():
 def _run(ck):
     ck.rule = ("trees: every string over the critical alphabet {a ( ) \\ CR U+015C U+5C5C U+2829 U+FEFF NUL U+295C} up to the "
                "tier's length, the same strings in every container position, int/decimal/bool/property/tag tables, "
-               "hand-written container shapes (incl. the F-C18-2 class), random trees up to the tier's depth (a quarter "
+               "hand-written container shapes (incl. the former F-C18-2 class), random trees up to the tier's depth (a quarter "
                "with mixed lists), depth-forcing spines, random Unicode strings incl. astral; each x both layouts; "
                "bytes: fixture engine-data blobs, a malformed corpus and byte-mutated written outputs; "
                "non-trivial = tree with >= 2 containers or a string whose UTF-16BE bytes contain ( ) or \\")
@@ -853,7 +832,7 @@ def _run(ck):
             ck.count("depth:%d" % dp)
             ck.count("write:%s" % ("ok" if w[0] == 0 else "error%d" % w[0]))
         if not lists_ok(0, t):
-            ck.count("guard:mixed-list (F-C18-2 class)")
+            ck.count("class:indented list mixing Dict and non-Dict items (former F-C18-2)")
         if dp >= 2 or has_special_string(t):
             ck.nontriv(repr(kvs))
         if ntree in (700, 1800, 2500):
